@@ -247,6 +247,12 @@ class RingSystem:
                 _, L, o, fwd, kind = op
                 offs, arg = self.offsets(o, kind)
                 ret = rt.readrange(L, arg, forward=fwd)
+                if check and kind == "int" and o == 1 and not fwd:
+                    # documented defaults: offset 1 and forward=False
+                    dflt = rt.readrange(L)
+                    if dflt.shape != ret.shape or not torch.equal(dflt, ret):
+                        bad.append(("default-arguments:readrange", f"readrange({L}) without offset/forward differs from readrange({L}, 1, forward=False)",
+                                    ret.tolist(), dflt.tolist()))
                 exp = []
                 for e in range(E):
                     if fwd:
